@@ -489,6 +489,17 @@ def solve_and_check(c, cs):
         traj.append(tm)
         dinit.append([Fraction(float(np.asarray(res["initial_der(x%d)" % s]).ravel()[0])) for s in range(inst["ns"])])
         big = max([big] + [abs(float(x)) for x in dinit[-1]])
+    # result extraction: the returned trajectories are the decoded solver output (nominal * X[index])
+    try:
+        dtraj, ddinit = decode(cs, np.asarray(prob.solver_output).ravel())
+        for m in range(inst["E"]):
+            for a, b in zip([x for tr in traj[m] for x in tr] + dinit[m], [x for tr in dtraj[m] for x in tr] + ddinit[m]):
+                if abs(float(a) - float(b)) > 1e-12 * max(1.0, abs(float(b))):
+                    c.fail("extract_results differs from nominal * solver_output at the recovered indices", slim(inst),
+                           {"member": m, "extracted": float(a), "decoded": float(b)})
+                    return
+    except S.LayoutError:
+        pass
     worst = 0.0
     where = None
     for r in spec_rows(inst, traj, dinit):
@@ -564,9 +575,9 @@ def run(c):
     c.prove()
     rng = c.rng
     run_batch(c, [dict(x) for x in CORPUS], rng)
-    n_main = c.n(60, 600)
-    n_own = c.n(12, 100)
-    n_solve = c.n(8, 60)
+    n_main = c.n(80, 600)
+    n_own = c.n(16, 100)
+    n_solve = c.n(10, 60)
     insts = [S.gen_instance(rng, big=c.big and rng.random() < 0.3) for _ in range(n_main)]
     own = []
     while len(own) < n_own:
@@ -578,7 +589,7 @@ def run(c):
         if S.add_own_times(rng, inst):
             own.append(inst)
     hist = []
-    while len(hist) < c.n(10, 80):
+    while len(hist) < c.n(14, 80):
         inst = S.gen_instance(rng, kind=rng.choice(["affine", "nonlinear"]))
         if inst["na"] + inst["nc"] == 0:
             continue
